@@ -189,16 +189,34 @@ def check_reject(ctx, repo):
     m2 = has_stmt(lambda s: isinstance(s, ast.AugAssign) and isinstance(s.op, ast.Mult) and src(s.target) == 'badness' and src(s.value) == 'outmask')
     ctx.check('C17.REJ-MASKS', len(m2) == 1 and isinstance(m2[0]._parent, ast.If) and src(m2[0]._parent.test) == 'sticky', f, m2[0] if m2 else f.node,
               'badness *= outmask under sticky', msg='badness is not multiplied by outmask under sticky', construct='badness*outmask')
-    a1 = has_stmt(lambda s: isinstance(s, ast.Assign) and src(s.targets[0]) == 'newmask' and src(s.value) in ('newmask & inmask', 'inmask & newmask'))
+    def and_stmt(other):
+        out = []
+        for st in walk_local(f.node):
+            if isinstance(st, ast.AugAssign) and isinstance(st.op, ast.BitAnd) and {src(st.target), src(st.value)} == {'newmask', other}:
+                out.append(st)
+            elif isinstance(st, ast.Assign) and isinstance(st.value, ast.BinOp) and isinstance(st.value.op, ast.BitAnd) \
+                    and {src(st.value.left), src(st.value.right)} == {'newmask', other} and src(st.targets[0]) in ('newmask', other):
+                out.append(st)
+        return out
+    a1 = and_stmt('inmask')
     ctx.check('C17.REJ-MASKS', len(a1) == 1 and src(a1[0]._parent.test) == 'inmask is not None', f, a1[0] if a1 else f.node,
-              'newmask &= inmask', msg='the new mask is not ANDed with inmask', construct='newmask&inmask')
-    a2 = has_stmt(lambda s: isinstance(s, ast.Assign) and src(s.targets[0]) == 'newmask' and src(s.value) in ('newmask & outmask', 'outmask & newmask'))
+              'the new mask is ANDed with inmask', msg='the new mask is not ANDed with inmask', construct='newmask&inmask')
+    a2 = and_stmt('outmask')
     ctx.check('C17.REJ-MASKS', len(a2) == 1 and src(a2[0]._parent.test) == 'sticky', f, a2[0] if a2 else f.node,
-              'newmask &= outmask under sticky', msg='the new mask is not ANDed with outmask under sticky', construct='newmask&outmask')
-    qd = has_stmt(lambda s: isinstance(s, ast.Assign) and src(s.targets[0]) == 'qdone')
+              'the new mask is ANDed with outmask under sticky', msg='the new mask is not ANDed with outmask under sticky', construct='newmask&outmask')
+    check_qdone(ctx, f, fa, 'C17.REJ-MASKS')
+    check_thresholds(ctx, f, fa, 'C17.REJ-MASKS')
+
+
+def check_qdone(ctx, f, fa, rule):
+    """qdone = all(newmask == outmask), with outmask still the incoming mask (no write to it since badness was formed;
+    a rebinding `outmask = newmask`, if present, comes after)."""
+    qd = [st for st in walk_local(f.node) if isinstance(st, ast.Assign) and src(st.targets[0]) == 'qdone']
     okq = False
+    why = 'missing'
     if len(qd) == 1:
         v = qd[0].value
+        why = src(v)
         inner = v
         while isinstance(inner, ast.Call) and call_name(inner) in ('bool', 'all') and (inner.args or isinstance(inner.func, ast.Attribute)):
             inner = inner.args[0] if inner.args else inner.func.value
@@ -206,12 +224,20 @@ def check_reject(ctx, repo):
         if isinstance(inner, ast.Call) and call_name(inner) == 'array_equal' and {src(a) for a in inner.args} == {'newmask', 'outmask'}:
             eq = True
         has_all = 'all(' in src(v) or 'array_equal' in src(v)
-        rebind = has_stmt(lambda s: isinstance(s, ast.Assign) and src(s.targets[0]) == 'outmask' and src(s.value) == 'newmask')
-        okq = eq and has_all and bool(rebind) and all(fa.dominates(qd[0], r) for r in rebind)
-    ctx.check('C17.REJ-MASKS', okq, f, qd[0] if qd else f.node, 'qdone = all(newmask == outmask), evaluated on the incoming outmask before it is rebound',
-              msg='qdone is `%s`: completion is not reported exactly when the mask did not change' % (src(qd[0].value) if qd else 'missing'),
-              construct='qdone ' + (src(qd[0].value) if qd else ''))
-    check_thresholds(ctx, f, fa, 'C17.REJ-MASKS')
+        okq = eq and has_all
+        bdef = [st for st in walk_local(f.node) if isinstance(st, ast.Assign) and src(st.targets[0]) == 'badness']
+        start = bdef[0].lineno if bdef else 0
+        for st in walk_local(f.node):
+            if isinstance(st, (ast.Assign, ast.AugAssign)) and start < st.lineno < qd[0].lineno:
+                for t in (st.targets if isinstance(st, ast.Assign) else [st.target]):
+                    b = t
+                    while isinstance(b, ast.Subscript):
+                        b = b.value
+                    if isinstance(b, ast.Name) and b.id == 'outmask':
+                        okq = False
+                        why = '%s, but `%s` has already modified the incoming outmask' % (src(v), src(st))
+    ctx.check(rule, okq, f, qd[0] if qd else f.node, 'qdone = all(newmask == outmask), evaluated on the incoming outmask before anything writes to it',
+              msg='qdone is `%s`: completion is not reported exactly when the mask did not change' % why, construct='qdone ' + why)
 
 
 def check_thresholds(ctx, f, fa, rule):
